@@ -2,10 +2,12 @@ package main
 
 import (
 	"sort"
+	"strconv"
 	"strings"
 
 	"ti/base"
 	"ti/eval"
+	me "ti/eval/method_evaluator"
 )
 
 // narrow <if|unless> | x=<T>;y=<T> | c x Integer 0 0;e;s;...
@@ -49,4 +51,42 @@ func opNarrow(args string) string {
 
 func init() {
 	ops["narrow"] = opNarrow
+}
+
+var propSeq int
+
+// prop <init> | round:T ; round:T ; ...     init = "-" (no slot), "V:<T>" (a value), "D:<T>" (a value with a default, `def m(p = lit)`)
+// answer per step: <returned><hasDefault><inferred>:<round tag>:<rendered slot>
+func opProp(args string) string {
+	parts := strings.Split(args, " | ")
+	propSeq++
+	cls, method, param := "", "pm"+strconv.Itoa(propSeq), "p"
+	init := strings.TrimSpace(parts[0])
+	if init != "-" {
+		t := nestedT(init[2:])
+		if init[0] == 'D' {
+			t.SetHasDefault(true)
+		}
+		base.SetValueT("", cls, method, param, t, false)
+	}
+	var out []string
+	for _, st := range strings.Split(parts[1], ";") {
+		st = strings.TrimSpace(st)
+		if st == "" {
+			continue
+		}
+		round, rec, _ := strings.Cut(st, ":")
+		ret := me.VerifPropagate(round, cls, method, param, nestedT(rec))
+		slot := base.GetValueT("", cls, method, param, false)
+		if slot == nil {
+			out = append(out, b01(ret)+"--::nil")
+			continue
+		}
+		out = append(out, b01(ret)+b01(slot.HasDefault())+b01(slot.IsInfferedFromCall())+":"+slot.Round+":"+base.TypeToString(slot))
+	}
+	return strings.Join(out, " / ")
+}
+
+func init() {
+	ops["prop"] = opProp
 }
